@@ -199,6 +199,10 @@ def run_unit(u, scratch, tier="quick", use_cache=True, keep=False):
         cmd += ["--unwindset", ",".join(uws + lib)]
     cmd += u.extra_cbmc
     res["checker_cmd"] = " ".join(c if c != cur else "<unit>.gb" for c in cmd)
+    if os.environ.get("VERIF_BUILD_ONLY"):     # development aid: stop after instrumentation, leave the binary and the checker command behind
+        open(os.path.join(work, "cmd.txt"), "w").write(" ".join(c for c in cmd if c != "--json-ui"))
+        res["reason"] = "build only: " + work
+        return _finish(res, t0, work, True)
     # main pass in TEXT mode: with --json-ui cbmc builds a trace for every failed assertion (the VF_COVER goals fail by design), which can exhaust memory
     tcmd = [c for c in cmd if c != "--json-ui"]
     rc, out, err, wall = sh(tcmd, timeout, mem_gb=u.mem)
